@@ -97,6 +97,19 @@ def trigHashPattern (ki : KindInfo) (v : TV) : Bool :=
   (structsOf ki v).any fun p => (p.1 == "debiancopyright.Header" || p.1 == "debiancopyright.FilesParagraph") &&
     p.2.any fun f => (f.1 == c!"Files" || f.1 == c!"Files-Excluded") && hasInfix hashLine f.2
 
+/-- F-C20-7: the printed `Vcs-Git` value of a source paragraph is not a fixed point of
+    `ParsedVcs` print ∘ parse (a second ` [..]` group, or a ` [..]` group / ` -b ` left inside the URL or
+    branch): the printed text then reads as a different value -/
+def trigVcsUnstable (ki : KindInfo) (v : TV) : Bool :=
+  (structsOf ki v).any fun p => p.1 == "control.Source" &&
+    p.2.any fun f => f.1 == c!"Vcs-Git" && (Codec.ParsedVcs.parse f.2).print != f.2
+
+/-- F-C20-8: a buildinfo `Environment` whose printed (sorted) form has a later line starting with `#`
+    (a variable name that starts with `#` and does not sort first: a comment line for the reader) -/
+def trigHashEnv (ki : KindInfo) (v : TV) : Bool :=
+  (structsOf ki v).any fun p => p.1 == "buildinfo.Buildinfo" &&
+    p.2.any fun f => f.1 == c!"Environment" && hasInfix hashLine f.2
+
 def handle (op : String) (args : List String) : Option String :=
   match op.splitOn ".", args with
   | ["typed", name], [t, e] => do
@@ -124,6 +137,8 @@ def handle (op : String) (args : List String) : Option String :=
       let p1 := showTV ki v1
       let trig := (if trigEmptyDep3 ki v1 then ["F-C20-4"] else [])
         ++ (if trigHashPattern ki v1 then ["F-C20-5"] else [])
+        ++ (if trigVcsUnstable ki v1 then ["F-C20-7"] else [])
+        ++ (if trigHashEnv ki v1 then ["F-C20-8"] else [])
       let sfx := if trig.isEmpty then "" else "\t!" ++ ",".intercalate trig
       match parse ki.kind t1 with
       | .error e2 => pure (s!"p1={p1} t1={encStr t1} p2={showErr e2} t2=- ll={ll}" ++ sfx)
